@@ -102,7 +102,7 @@ def base_state():
 
 def spec_of(st, ds, work):
     parts = ['ids=%s' % ','.join(map(str, st['ids'])), 'setsid=%d' % st['setsid'], 'cwd=' + st['cwd'], 'stdin=' + st['stdin'], 'env=' + st['env'], 'sudo=%d' % st['sudo'], 'logname=%d' % st['logname'],
-             'host=' + st['host'], 'ptyowner=%d' % st['ptyowner'], 'orphan=%d' % st.get('orphan', 0), 'tz=' + st.get('tz', 'UTC'), 'newpgrp=%d' % st.get('newpgrp', 0), 'pwd=' + st.get('pwd', 'none'), 'exec2=%d' % st.get('exec2', 0), 'forked=%d' % st.get('forked', 0), 'work=' + work, 'ds=' + ','.join(hx(d) for d in ds)] + (['cgfile=' + hx(st['cgfile'])] if st.get('cgfile') else [])
+             'host=' + st['host'], 'ptyowner=%d' % st['ptyowner'], 'orphan=%d' % st.get('orphan', 0), 'tz=' + st.get('tz', 'UTC'), 'newpgrp=%d' % st.get('newpgrp', 0), 'pwd=' + st.get('pwd', 'none'), 'exec2=%d' % st.get('exec2', 0), 'forked=%d' % st.get('forked', 0), 'work=' + work, 'ds=' + ','.join(hx(d) for d in ds)] + (['cgfile=' + hx(st['cgfile'])] if st.get('cgfile') else []) + (['etc=' + st['etc']] if st.get('etc') else [])
     if st['chain']:
         parts.append('chain=' + '/'.join(hx(n) for n in st['chain'].split('/')))
     return ';'.join(parts)
@@ -260,6 +260,41 @@ def run(ck):
             ck.violation('C12:%s:%s' % (n, tag), {'datasource': n, 'problem': why, 'state': st})
         if len(samples) < 4 and evals % 101 == 3:
             samples.append({'state': tag, 'mismatches': [b[0] for b in bad]})
+    # ---- user and group databases: variants of /etc/passwd and /etc/group bound over the real ones (private mount namespace)
+    real_pw, real_gr = open('/etc/passwd').read(), open('/etc/group').read()
+    def without(text, ids, col):
+        return ''.join(l + '\n' for l in text.splitlines() if not (len(l.split(':')) > col and l.split(':')[col] in ids))
+    members = ','.join('member%04d' % i for i in range(400))            # a group line of about 4 KB: common on real systems
+    DBV = {
+        'big_group_line': (real_pw, without(real_gr, ('0', '1'), 2) + 'root:x:0:' + members + '\ndaemon:x:1:' + members[:1100] + '\n'),
+        'big_passwd_line': (without(real_pw, ('0', '1'), 2) + 'root:x:0:0:' + 'G' * 3000 + ':/root:/bin/sh\ndaemon:x:1:1:' + 'g' * 1100 + ':/:/bin/false\n', real_gr),
+        'duplicates_first_wins': ('first:x:0:0::/:/bin/sh\n' + real_pw + 'late:x:1:1::/:/bin/sh\n', 'firstgrp:x:0:\n' + real_gr + 'lategrp:x:1:\n'),
+        'long_names': (without(real_pw, ('0', '1'), 2) + 'r' * 32 + ':x:0:0::/:/bin/sh\n' + 'd' * 255 + ':x:1:1::/:/bin/sh\n', without(real_gr, ('0', '1'), 2) + 'R' * 32 + ':x:0:\n' + 'D' * 255 + ':x:1:\n'),
+        'no_final_newline_and_junk': ('junk line\n\n# comment\n' + without(real_pw, ('1',), 2) + 'daemon:x:1:1::/:/bin/false', ':::\nnocolons\n' + without(real_gr, ('1',), 2) + 'daemon:x:1:'),
+        'ids_removed': (without(real_pw, ('0', '1'), 2), without(real_gr, ('0', '1'), 2)),
+    }
+    dbstates, dbmaps = [], []
+    for name, (pwt, grt) in DBV.items():
+        d = os.path.join(ck.workdir, 'etc-' + name)
+        os.makedirs(d, exist_ok=True)
+        open(os.path.join(d, 'passwd'), 'w').write(pwt)
+        open(os.path.join(d, 'group'), 'w').write(grt)
+        os.chmod(d, 0o755)
+        for f in ('passwd', 'group'):
+            os.chmod(os.path.join(d, f), 0o644)
+        for u, g in (((0, 0, 0), (0, 0, 0)), ((1, 0, 0), (1, 0, 0)), ((0, 1, 1), (0, 1, 1)), ((54321, 1, 0), (54321, 1, 0))):
+            dbstates.append(dict(base_state(), ids=u + g, etc=d, dbname=name))
+            dbmaps.append((parse_db(os.path.join(d, 'passwd'), 2), parse_db(os.path.join(d, 'group'), 2)))
+    for st, (pwm, grm), (out, r, reports) in zip(dbstates, dbmaps, pmap(one, dbstates)):
+        evals += 1
+        tag = 'databases=%s,ids=%s' % (st['dbname'], '/'.join(map(str, st['ids'])))
+        if out is None or reports:
+            ck.violation('C12:abort:%s' % tag, {'state': {k: v for k, v in st.items() if k != 'etc'}, 'rc': r.returncode, 'stderr': r.stderr.decode('latin-1')[-400:], 'sanitizer': reports[:1]})
+            continue
+        bad = [b for b in check_state(st, out, pwm, grm, version) if b[0] in ('username', 'eusername', 'group', 'egroup', 'tty_username', 'login', 'uid', 'euid', 'gid', 'egid')]
+        outcomes.add((tag, tuple(b[0] for b in bad)))
+        for n, why in bad:
+            ck.violation('C12:%s:%s' % (n, tag), {'datasource': n, 'problem': why, 'databases': st['dbname'], 'ids': st['ids']})
     # ---- control-group texts: every file of <= 3 lines over a line alphabet (x final newline or not), every selector
     CGL = ['9:name=systemd:/', '4:memory:/a/b', '3:cpu,cpuacct:/x', '2:cpuset:/y:with:colons', '1:net_cls,net_prio,cpu:/p,with,commas', '0::/unified', '12:pids:/' + 'd' * 3000,
            'garbage line', '5:mem:/short', '6:memoryx:/z', '7:cpu:', '8', '10:memory', '11:a,,b:/emptytoken']
